@@ -147,6 +147,17 @@ def plain_rule(draw, tag_only_p=3):
     tag_only = draw(st.integers(0, 9)) < tag_only_p
     m = draw(st.one_of(lang.word.map(lambda w: ['match', 'contains', None, w]), lang.word.map(lambda w: ['match', 'regex', None, w]),
                        st.sampled_from(lang.CONSTS).map(lambda c: ['cmp', ['name', 'amount'], [['>', ['num', c]]]]), st.just(['match', 'contains', None, ''])))
+    if draw(st.integers(0, 2)) == 0:
+        # ... narrowed by ONE other input of the transaction (where it was bought, which card, a statement column)
+        side = draw(st.sampled_from([
+            ['cmp', ['txn', 'location'], [['==', ['str', draw(st.sampled_from(lang.LOCATIONS))]]]],
+            ['cmp', ['name', 'location'], [['!=', ['str', draw(st.sampled_from(lang.LOCATIONS))]]]],
+            ['cmp', ['name', 'source'], [['==', ['str', draw(st.sampled_from(lang.SOURCES))]]]],
+            ['cmp', ['txn', 'source'], [['!=', ['str', draw(st.sampled_from(lang.SOURCES))]]]],
+            ['match', 'contains', ['field', 'memo'], 'REF'],
+            ['cmp', ['name', 'month'], [['==', ['num', draw(st.sampled_from([1, 6, 12]))]]]],
+        ]))
+        m = ['and', [m, side]] if draw(st.booleans()) else ['and', [side, m]]
     tags = draw(st.lists(tag, min_size=1, max_size=3))
     if tag_only and not any(isinstance(t, str) and t.strip() for t in tags):
         tags = tags + ['tagonly']
